@@ -131,6 +131,11 @@ def build(case, Ms=None):
         [model.rating(p[0], p[1], p[2] if len(p) > 2 else None) for p in team]
         for team in case["teams"]
     ]
+    if case.get("ids") == "shared":
+        # distinct rating objects that carry the same id string (copy.deepcopy clones keep the id: bots, snapshots)
+        flat = [p for t in teams for p in t]
+        for i, p in enumerate(flat):
+            p.id = f"shared-{i % 2}"
     kw = {}
     if case.get("sel") in ("ranks", "scores"):
         kw[case["sel"]] = list(case["vals"])
